@@ -143,10 +143,20 @@ package region
 //@   requires typeis(c, "*region.multi") && err == nil ==> typeis(msg, "*pb.MultiResponse") && multiWF(cast(c, "*region.multi")) && multiRespOK(cast(c, "*region.multi"), cast(msg, "*pb.MultiResponse")) && pbwf()
 //@   panics never[C11]
 
+// Classification of server exceptions (C04): the classes the statement lists, by the reaction they call for.
+//@ pred region.retryLaterClass(cl) = cl == "org.apache.hadoop.hbase.CallQueueTooBigException" || cl == "org.apache.hadoop.hbase.exceptions.RegionOpeningException" || cl == "org.apache.hadoop.hbase.quotas.RpcThrottlingException" || cl == "org.apache.hadoop.hbase.RetryImmediatelyException" || cl == "org.apache.hadoop.hbase.RegionTooBusyException" || cl == "org.apache.hadoop.hbase.PleaseHoldException"
+//@ pred region.relocateClass(cl) = cl == "org.apache.hadoop.hbase.NotServingRegionException" || cl == "org.apache.hadoop.hbase.exceptions.RegionMovedException"
+//@ pred region.serverDeadClass(cl) = cl == "org.apache.hadoop.hbase.regionserver.RegionServerAbortedException" || cl == "org.apache.hadoop.hbase.regionserver.RegionServerStoppedException" || cl == "org.apache.hadoop.hbase.exceptions.MasterStoppedException" || cl == "org.apache.hadoop.hbase.ipc.ServerNotRunningYetException"
+
 //@ func region.exceptionToError
 //@   modifies nothing
 //@   panics never[C11]
 //@   ensures[C11] r0 != nil
+//@   ensures[C04] retryLaterClass(class) ==> typeis(r0, "region.RetryableError")
+//@   ensures[C04] relocateClass(class) ==> typeis(r0, "region.NotServingRegionError")
+//@   ensures[C04] serverDeadClass(class) ==> typeis(r0, "region.ServerError")
+// anything else (application exceptions, unknown table, ...) comes back as a plain error, none of the retry classes
+//@   ensures[C04] !retryLaterClass(class) && !relocateClass(class) && !serverDeadClass(class) && class != "java.io.IOException" ==> !typeis(r0, "region.RetryableError") && !typeis(r0, "region.NotServingRegionError") && !typeis(r0, "region.ServerError")
 
 // every multi registered in the sent-calls table was built from batchable calls
 //@ pred region.tableWF(t) = forall(k, (haskey(t, k) ==> t[k] != nil) && (typeis(t[k], "*region.multi") ==> multiWF(cast(t[k], "*region.multi"))))
@@ -324,6 +334,7 @@ package region
 //@   modifies F.region.client.sent, D.map[uint32]hrpc.Call, V.map[uint32]hrpc.Call, C.map[uint32]hrpc.Call, F.region.multi.*, M.hrpc.Call, X.delivered, X.owed, F.pb.GetResponse.Result, F.pb.MutateResponse.Result, X.oncedone, X.closed
 //@   panics never[C03]
 //@   ensures[C03] ghostat("oncedone", ref(c.failOnce)) == 1 && c.sent != nil && owedShrinks()
+//@   ensures[C03] forall(k, k != ref(c.failOnce) ==> ghostat("oncedone", k) == old(ghostat("oncedone", k)))
 //@   ensures[C03] old(ghostat("oncedone", ref(c.failOnce))) == 0 ==> len(c.sent) == 0 && ghostat("closed", c.done) == 1
 //@   ensures[C03] old(ghostat("oncedone", ref(c.failOnce))) != 0 ==> nothingDelivered()
 //@   ensures[C03] old(ghostat("oncedone", ref(c.failOnce))) != 0 ==> len(c.sent) == old(len(c.sent))
@@ -373,3 +384,34 @@ package region
 //@ func snappy.snappyCodec.ChunkLen
 //@   modifies nothing
 //@   ensures[C15] r0 == 218421
+
+// ---- a connection object dials at most once (C20) ----
+//@ func region.(*client).Dial$dialer(ctx, network, addr) (conn, err)
+//@   modifies X.dials
+//@   ensures ghost("dials") == old(ghost("dials")) + 1
+//@   ensures err == nil ==> conn != nil
+
+//@ func region.(*client).sendHello
+//@   trusted "connection preamble and header (C05 covers request frames; the preamble is not yet under contract): it only writes to the connection"
+//@   modifies X.written
+
+//@ func region.(*client).Dial
+//@   requires c.sent != nil && sentWF(c) && failWF(c)
+//@   ensures[C20] ghostat("oncedone", ref(c.dialOnce)) == 1
+//@   ensures[C20] old(ghostat("oncedone", ref(c.dialOnce))) == 1 ==> ghost("dials") == old(ghost("dials"))
+//@   ensures[C20] old(ghostat("oncedone", ref(c.dialOnce))) == 0 ==> ghost("dials") == old(ghost("dials")) + 1
+
+// ---- availability of a region: the establisher token (C09) ----
+//@ func region.(*info).MarkUnavailable
+//@   modifies F.region.info.available
+//@   panics never[C09]
+//@   ensures[C09] r0 == (old(i.available) == nil) && i.available != nil
+//@   ensures[C09] old(i.available) == nil ==> ghostat("closed", i.available) == 0
+//@   ensures[C09] old(i.available) != nil ==> i.available == old(i.available)
+
+// closing a nil channel (region not marked) or a closed one would panic: the caller must hold the token
+//@ func region.(*info).MarkAvailable
+//@   requires i.available != nil && ghostat("closed", i.available) == 0
+//@   modifies F.region.info.available, X.closed
+//@   panics never[C09]
+//@   ensures[C09] i.available == nil && ghostat("closed", old(i.available)) == 1
